@@ -2149,3 +2149,20 @@ Theorem tojson_value_full o c vs : Valid None c -> bytes_ok c = true -> u64ok c 
 Proof.
   intros V B U T. apply tojson_value_frag; [exact (valid_frag c None V B) | exact U | exact T].
 Qed.
+
+(* the hypotheses of tojson_value are satisfiable together: a valid union of strings and named tuples, and a
+   3 x 2 NumpyArray inside a ListArray *)
+From AwkV Require Proofs_C11.
+Definition ex_layout3 : content :=
+  ListA I32 [1; 0] [3; 1] (Numpy DInt16 [3; 2] [DZ 1; DZ 2; DZ 3; DZ 4; DZ 5; DZ 6]).
+
+Example tojson_value_hyps_ex :
+  Valid None ex_layout2 /\ bytes_ok ex_layout2 = true /\ u64ok ex_layout2 = true /\
+  Valid None ex_layout3 /\ bytes_ok ex_layout3 = true /\ u64ok ex_layout3 = true /\
+  to_list ex_layout3 = Ok [VList [VList [VNum (DZ 3); VNum (DZ 4)]; VList [VNum (DZ 5); VNum (DZ 6)]];
+                           VList [VList [VNum (DZ 1); VNum (DZ 2)]]] /\
+  (do e <- tojson_events ex_opts ex_layout3; Ok (render e)) =
+    Ok [91; 91; 91; 51; 44; 52; 93; 44; 91; 53; 44; 54; 93; 93; 44; 91; 91; 49; 44; 50; 93; 93; 93].
+Proof.
+  repeat split; try (apply Proofs_C11.validity_exact_gen); vm_compute; reflexivity.
+Qed.
